@@ -12,7 +12,7 @@ from typing import Any, Dict, List, Optional
 
 import numpy
 
-from .. import core, model, seams
+from .. import prelude, core, model, seams
 from ..model import gen_poly
 from ..runner import NUMPOLY_DIR
 
@@ -63,6 +63,8 @@ def generate(rs: int, tier: str, index: int) -> dict:
             t = ch.below(len(lit["coefficients"]))
             lit["coefficients"][t][j] = lit["coefficients"][t][j] + 1
     step: Dict[str, Any] = {"id": 0, "k": kind, "p": lit, "graded": ch.chance(0.5), "reverse": ch.chance(0.5)}
+    if ch.chance(0.35):  # the queries say nothing about the retain options: they must hold under any of them
+        step["options"] = {"retain_names": ch.chance(0.4), "retain_coefficients": ch.chance(0.5)}
     if kind == "extreme":
         step["fn"] = ch.choice(["argmax", "argmin", "amax", "amin"])
     if kind == "set_dimensions":
@@ -90,7 +92,7 @@ def generate(rs: int, tier: str, index: int) -> dict:
         envs = allenvs
     else:
         envs += ch.sample([e for e in allenvs if e != ("stable", "zero")], 2)
-    return {"property": ID, "run_seed": rs, "tier": tier, "envs": [list(e) for e in envs], "steps": [step]}
+    return {"property": ID, "run_seed": rs, "tier": tier, "prelude": prelude.gen_prelude(core.Chooser(rs, "prelude")), "envs": [list(e) for e in envs], "steps": [step]}
 
 
 class Runner:
@@ -131,7 +133,8 @@ class Runner:
                 g, r = step["graded"], step["reverse"]
                 tag = f"{pol}/{fill}"
                 try:
-                    fp = self.check(kind, step, p, names, els, nv, g, r, tag, numpoly)
+                    with numpoly.global_options(**step.get("options", {})):
+                        fp = self.check(kind, step, p, names, els, nv, g, r, tag, numpoly)
                 except core.Violation as exc:
                     self.violate(exc.clause, exc.op if exc.op != "accessors" else kind, sid, f"[{tag}] {exc.detail}")
                     fp = "violation"
@@ -329,16 +332,23 @@ def execute(plan: dict) -> dict:
     with warnings.catch_warnings():
         warnings.simplefilter("ignore")
         with numpy.errstate(all="ignore"):
+            prelude.run_prelude(plan.get("prelude"), runner.stats)
             runner.run()
     return {"violations": runner.violations, "events": runner.events, "stats": runner.stats, "sigs": sorted(runner.sigs)}
 
 
 def simplify(plan: dict):
+    if plan.get("prelude"):
+        yield dict(plan, prelude=None)
+        for i in range(len(plan["prelude"])):
+            yield dict(plan, prelude=plan["prelude"][:i] + plan["prelude"][i + 1:] or None)
     if len(plan["envs"]) > 1:
         for env in plan["envs"]:
             yield dict(plan, envs=[env])
         for env in plan["envs"][1:]:
             yield dict(plan, envs=[plan["envs"][0], env])
     step = plan["steps"][0]
+    if step.get("options"):
+        yield dict(plan, steps=[{k: v for k, v in step.items() if k != "options"}])
     for lit in model.lit_shrinks(step["p"]):
         yield dict(plan, steps=[dict(step, p=lit)])
